@@ -11,6 +11,13 @@ Static half (the "translator" tie, every run):
   race detector has been asked for a concrete schedule), unless listed in tools/c18_confined.json (reviewed
   exceptions) or in an open KNOWN_FINDINGS entry.  The same verdict is recomputed independently in Python.
   Package-level variables of the library written outside init() are flagged the same way.
+  The extractor also emits the protocol skeletons of Start/Stop/loop of both workers and of the tree-level
+  wrappers WritableBTreeV2.{Enable,Stop,Is...Enabled,Get...Progress} of incremental rebalancing; they are compared
+  with tools/c18_protocol_shape.json: equal to `patched` => the positive theorems of Model/Lifecycle.v apply;
+  equal to `as_found` / a `refuted_variants` entry => the refuted protocol: a failing lifecycle test (preferably the
+  one named in `refutations.*.replayed_by`) is the replay of the Coq trace, otherwise no-failing-input-found with the
+  Coq trace in the evidence; equal to none => the transcription is out of date: dynamic tests decide, else
+  no-failing-input-found naming the correspondence.
 
 Dynamic half (search / correspondence): the overlay tests harness/overlay/**/zz_verif_c18_test.go are
   compiled with -race against the current tree and run with several GOMAXPROCS values: independent
@@ -30,6 +37,8 @@ TRUSTED = [
     "C18: constructor accesses (New*, With* option closures, composite literals) are assumed to happen before the object is shared",
     "C18: the start/stop protocols are hand-written counter abstractions of Start/Stop/loop (Model/Lifecycle.v); critical "
     "sections under the object's mutex are single steps; scheduler fairness is not modelled (progress = enabledness + measure)",
+    "C18: the tree-level system (c) counts a goroutine as a worker until it has executed `ir.running = false`; a goroutine that has only "
+    "its deferred ticker.Stop()/close(stoppedChan) left can coexist with the goroutine of a newer rebalancer (C18_tree_exiting_overlap_example)",
     "C18: the Go race detector and runtime.NumGoroutine are the search half (schedules explored, not all schedules)",
 ]
 ASSUMPTIONS = ["sync.Mutex / RWMutex / WaitGroup / channels / sync.atomic behave as documented (Go memory model)"]
@@ -246,27 +255,40 @@ def static_half(ctx, viol, known, cov, ks):
     cov["package_level_vars"] = dict(total=len(pvs), by_class={c: sum(1 for x in pvs if x["class"] == c) for c in ("sync", "error-sentinel", "data")},
                                      data_vars=[dict(name=x["pkg"] + "." + x["name"], type=x["type"], writes_outside_init=len(x["writes_outside_init"]), reads=x["reads"])
                                                 for x in pvs if x["class"] == "data"])
-    # protocol skeletons vs the two transcriptions of Model/Lifecycle.v
+    # protocol skeletons vs the transcriptions of Model/Lifecycle.v: per group `patched` is the shape the positive
+    # theorems are proved for; `as_found` and every entry of `refuted_variants` are shapes whose transcription is refuted
     shape_bad = []
     golden = json.load(open(SHAPES))["groups"]
     cov["side_obligations"] += len(golden)
     variants = {}
     for g, spec in sorted(golden.items()):
         cur = {f: data.get("protocols", {}).get(f) for f in spec["functions"]}
+        refuted = {}
+        if spec.get("as_found"):
+            refuted["as found (Lifecycle fixed=false)"] = spec["as_found"]
+        for name, sk in sorted(spec.get("refuted_variants", {}).items()):
+            refuted[name] = sk
+        hit = next((name for name, sk in refuted.items() if cur == sk), None)
         if cur == spec["patched"]:
-            variants[g] = "patched (Lifecycle fixed=true: the positive theorems apply)"
+            variants[g] = "patched (the shape Model/Lifecycle.v proves the positive theorems for)"
             cov["side_discharged"] += 1
-        elif cur == spec["as_found"]:
-            variants[g] = "as found (Lifecycle fixed=false: refuted)"
-            k = next((x for x in ks if x.get("id") == spec["known_finding_when_as_found"]), None)
+        elif hit:
+            variants[g] = "%s: refuted" % hit
+            kid = spec.get("known_finding_when_as_found") if hit.startswith("as found") else spec.get("known_finding_when_refuted", {}).get(hit)
+            k = next((x for x in ks if kid and x.get("id") == kid), None)
             if k:
                 known.append("%s: Start/Stop/loop of the %s worker have the shape that Model/Lifecycle.v refutes [protocol skeleton]" % (k["id"], g))
             else:
-                shape_bad.append(dict(group=g, what="the %s worker's Start/Stop/loop have the refuted shape (Lifecycle fixed=false)" % g, nofail=False))
+                ref = spec.get("refutations", {}).get(hit, {})
+                what = "the %s protocol functions have the refuted shape `%s` of Model/Lifecycle.v" % (g, hit)
+                if ref:
+                    what += " (%s: %s)" % (ref.get("theorem"), ref.get("meaning"))
+                shape_bad.append(dict(group=g, variant=hit, what=what, refutation=ref, nofail=False,
+                                      changed={f: dict(current=cur[f], proved=spec["patched"][f]) for f in spec["functions"] if cur[f] != spec["patched"][f]}))
         else:
             variants[g] = "unknown"
             diff = {f: dict(current=cur[f], patched=spec["patched"][f]) for f in spec["functions"] if cur[f] != spec["patched"][f]}
-            shape_bad.append(dict(group=g, what="the synchronisation skeleton of %s no longer matches either transcription in Model/Lifecycle.v" % ", ".join(sorted(diff)), diff=diff, nofail=True))
+            shape_bad.append(dict(group=g, what="the synchronisation skeleton of %s no longer matches any transcription in Model/Lifecycle.v" % ", ".join(sorted(diff)), diff=diff, nofail=True))
     cov["protocol_shapes"] = variants
     return dict(static_bad=static_bad, pv_bad=pv_bad, shape_bad=shape_bad, table_v=gen_text, entries=len(entries))
 
@@ -517,13 +539,15 @@ def run(ctx):
                                  nofail=True, correspondence="locktable_ok (Gen/LockTable.v regenerated from the source) = true, theorem C18_table_sound",
                                  case=rec))
         for rec in st["shape_bad"]:
-            hit = next((x for x in dyn if x.get("failure_class") in ("panic", "stop-timeout", "goroutine-leak")), None)
+            lifecycle = [x for x in dyn if x.get("failure_class") in ("panic", "stop-timeout", "goroutine-leak")]
+            replayers = rec.get("refutation", {}).get("replayed_by", [])
+            hit = next((x for x in lifecycle if (x.get("failing_input") or {}).get("test") in replayers), None) or next(iter(lifecycle), None)
             if hit:
                 hit["protocol_shape"] = rec
                 hit["what"] += "; " + rec["what"]
             else:
                 viol.append(dict(what=rec["what"], nofail=True, case=rec,
-                                 correspondence="tools/c18_protocol_shape.json (golden skeletons of the code Model/Lifecycle.v transcribes) vs tools/locktable on the current source; theorems C18_inc_*, C18_smart_*"))
+                                 correspondence="tools/c18_protocol_shape.json (golden skeletons of the code Model/Lifecycle.v transcribes) vs tools/locktable on the current source; theorems C18_inc_*, C18_smart_*, C18_tree_*"))
         for rec in st["pv_bad"]:
             viol.append(dict(what="package-level variable %s is written outside init (%s)" % (rec["variable"], rec["writes"][0]["func"]),
                              nofail=True, correspondence="package-level state of the library is immutable after init", case=rec))
